@@ -408,6 +408,16 @@ class ProgGen:
             qa = self.qreg()
             qb = self.qreg(avoid=(qa,))
             # the NV circuits implement "move into a |0> target; source is left to be freed"
+            if rng.random() < 0.35:
+                # the SDK's multi-pair EPR shape: ids in R registers, unknown to the pass
+                # (`sub R3 ..; set R4 0; mov R4 R3; qfree R4`)
+                self.emit("core.SetInstruction", reg(R, 6), imm(b))
+                self.emit("core.InitInstruction", reg(R, 6))
+                self.emit("core.SetInstruction", reg(R, 7), imm(a))
+                self.emit("vanilla.MovInstruction", reg(R, 7), reg(R, 6))
+                self.emit("core.InitInstruction", reg(R, 7))
+                self.features.add("mov-runtime-ids")
+                return
             self.emit("core.SetInstruction", reg(Q, qb), imm(b))
             self.emit("core.InitInstruction", reg(Q, qb))
             self.put_id(qa, a)
@@ -503,6 +513,33 @@ def has_nonset_q_write_reaching_gate(js):
             if w.name == RegisterName.Q:
                 dirty.add((w.name.value, w.index))
     return False
+
+
+def nonq_two_qubit_gate(js):
+    """F10's second recorded feature: a cnot/cphase names a register that is not a Q register
+    (the pass has no value for it and asserts)."""
+    for j in js:
+        if j["c"] in ("vanilla.CnotInstruction", "vanilla.CphaseInstruction"):
+            if any("r" in o and o["r"][0] != Q for o in j["o"]):
+                return True
+    return False
+
+
+def nonq_to_q(js):
+    """the delta for that feature: the same program with those gate operands (and the `set`s that
+    define them) moved to the Q registers of the same index"""
+    regs = set()
+    for j in js:
+        if j["c"] in ("vanilla.CnotInstruction", "vanilla.CphaseInstruction"):
+            regs |= {tuple(o["r"]) for o in j["o"] if "r" in o and o["r"][0] != Q}
+    out = []
+    for j in js:
+        if j["c"] in ("vanilla.CnotInstruction", "vanilla.CphaseInstruction", "core.SetInstruction"):
+            out.append({"c": j["c"], "o": [reg(Q, o["r"][1]) if "r" in o and tuple(o["r"]) in regs else o
+                                           for o in j["o"]]})
+        else:
+            out.append(j)
+    return out
 
 
 def soup(rng, n):
